@@ -390,6 +390,23 @@ func (s *Sys) DeviationRuns(k, workers int, onStep func(prev, cur *LState, e Eve
 			pols = append(pols, named{fmt.Sprintf("starve-node-%d", p), PolicyStarve(p)}, named{fmt.Sprintf("rush-node-%d", p), PolicyRush(p)}, named{fmt.Sprintf("late-start-node-%d", p), PolicyLateStart(p)})
 		}
 		pols = append(pols, named{"lifo", PolicyLIFO}, named{"starts-last", PolicyStartsLast})
+		// per-message starvation: every single delivery of the FIFO run is held back until nothing else is
+		// enabled (one slow link: the copy arrives one or more rounds late, everything else overtakes it)
+		fifoTrace, _, _, _, _ := s.RunPolicy(func(step int, evs []Event) int { return 0 }, nil)
+		for _, ev := range fifoTrace {
+			if ev.Kind != 'D' {
+				continue
+			}
+			held := ev
+			pols = append(pols, named{"hold-back " + held.String(), func(step int, evs []Event) int {
+				for i, e := range evs {
+					if e != held {
+						return i
+					}
+				}
+				return 0
+			}})
+		}
 		var wg sync.WaitGroup
 		var pb panicBox
 		sem := make(chan struct{}, workers)
